@@ -9,6 +9,7 @@ import BytomModel.Lemmas.Bech32
 import BytomModel.Lemmas.ConvertBits
 import BytomModel.Lemmas.Address
 import BytomModel.Lemmas.Mnemonic
+import BytomModel.Lemmas.Base32
 
 namespace BytomModel.Props.C29
 open BytomModel.Bech32 BytomModel.Lemmas.Bech32 BytomModel.Lemmas.ConvertBits BytomModel.Lemmas.Address
@@ -444,11 +445,30 @@ theorem mnemonic_roundtrip (ck : Mnemonic.Bytes → Nat) (e : Mnemonic.Bytes) (h
 
 end mnemonic
 
+/-! ### base32 (std encoding) -/
+
+/-- **Base32 round trip**: `DecodeString (EncodeToString src) = src` without error, for byte
+    strings of any length (all five padding shapes included). -/
+theorem base32_roundtrip (src : Base32.Bytes) (hb : ∀ b ∈ src, b < 256) :
+    Base32.decodeString (Base32.encodeToString src) = (src, none) := by
+  unfold Base32.decodeString Base32.encodeToString
+  have hfilter : (Base32.encodeF (src.length + 1) src).filter (fun c => c != 13 && c != 10)
+      = Base32.encodeF (src.length + 1) src := by
+    rw [List.filter_eq_self]
+    intro c hc
+    have := BytomModel.Lemmas.Base32.encodeF_no_newline _ _ c hc
+    simp [this.1, this.2]
+  simp only [hfilter]
+  have := BytomModel.Lemmas.Base32.decodeF_encodeF (Base32.encodeF (src.length + 1) src).length
+    (src.length + 1) src [] ((Base32.encodeF (src.length + 1) src).length + 1) hb (by omega) (by omega)
+  simpa using this
+
 /-! ### satisfiability of the hypotheses; tests on literals -/
 
 example : ∃ s, encode hrpMainnet [0, 1, 2, 31] = .ok s ∧ decode s = .ok (hrpMainnet, [0, 1, 2, 31]) :=
   bech32_decode_encode hrpMainnet [0, 1, 2, 31] (by decide) (by decide) (by decide) (by decide)
 example : GoodHrp hrpMainnet ∧ TwoLetters hrpMainnet := ⟨goodHrp_nets.1, twoLetters_nets.1⟩
+example : Base32.encodeToString [102, 111, 111] = [77, 90, 88, 87, 54, 61, 61, 61] := by decide
 example : verifyChecksum hrpMainnet ([3, 7] ++ checksum hrpMainnet [3, 7]) = true := by decide
 example : verifyChecksum hrpMainnet ([3, 8] ++ checksum hrpMainnet [3, 7]) = false := by decide
 
